@@ -8,7 +8,7 @@ ASYNC_FORMS = ['await', 'awaitexpr', 'awaitprint', 'gather', 'asyncwith', 'async
 NPTS = {'for': 2, 'if': 2, 'try': 2, 'tryexc': 2, 'semi': 2, 'semiemit': 2, 'multicall': 2, 'asyncwith': 3,
         'asyncfor': 2, 'comment': 0, 'blankprompt': 0, 'directive': 0, 'defhelper': 0, 'defemit': 0, 'defclass': 0,
         'asyncdef': 0, 'badcompile': 0, 'usename': 0, 'useG': 0, 'useshadow': 0, 'delconst': 0, 'hasconst': 0,
-        'decodef2': 2, 'chainexc': 2, 'bgtask': 3, 'useclass': 0, 'trysibling': 2, 'regappend': 0, 'keepout': 0, 'const': 0, 'loopval': 0, 'sharedcall': 0, 'futureimport': 0, 'strsemi': 0, 'defreprclass': 0, 'reprexpr': 0}
+        'decodef2': 2, 'chainexc': 2, 'bgtask': 3, 'useclass': 0, 'trysibling': 2, 'regappend': 0, 'keepout': 0, 'const': 0, 'loopval': 0, 'sharedcall': 0, 'mkdel': 0, 'gccollect': 0, 'futureimport': 0, 'strsemi': 0, 'defreprclass': 0, 'reprexpr': 0}
 # forms whose source line cannot carry a trailing directive comment (strsemi ends in a comment
 # of its own, and a directive is only recognised at the start of a comment)
 NO_INLINE_FORMS = ('tq', 'tqprint', 'tqdirective', 'bgtask', 'defreprclass', 'strsemi')
